@@ -4,15 +4,53 @@ From Dolt Require Import Prolly.Tree Prolly.Cursor C13.Model C13.Spec C13.Proofs
 Import ListNotations.
 Local Open Scope N_scope.
 
-Theorem C13_advance_sem :
-  forall c x f par, c = (x :: f) :: par -> all_valid par ->
-    cur_sem (advance c) = flat_frame f ++ above par.
-Proof. exact advance_sem. Qed.
-Print Assumptions C13_advance_sem.
+(* the headline: the differ as implemented = the declarative diff, any depths and shapes *)
+Theorem C13_tree_diff_spec :
+  forall addr_eqb : node -> node -> bool,
+    (forall x y, addr_eqb x y = true -> x = y) ->
+    forall am a b, wf_root a -> wf_root b ->
+      tree_diff addr_eqb am a b = Some (list_diff_g am (flatten a) (flatten b)).
+Proof. exact tree_diff_spec. Qed.
+Print Assumptions C13_tree_diff_spec.
 
-Theorem C13_cursor_at_start_sem : forall t, shape t = true -> cur_sem (cursor_at_start t) = flatten t.
-Proof. exact cursor_at_start_sem. Qed.
-Print Assumptions C13_cursor_at_start_sem.
+Theorem C13_diff_maps_spec :
+  forall addr_eqb : node -> node -> bool,
+    (forall x y, addr_eqb x y = true -> x = y) ->
+    forall am a b, wf_root a -> wf_root b ->
+      diff_maps addr_eqb am a b = Some (list_diff (flatten a) (flatten b)).
+Proof. exact diff_maps_spec. Qed.
+Print Assumptions C13_diff_maps_spec.
+
+(* the correspondence instantiates the address comparison with structural equality *)
+Theorem C13_diff_maps_spec_structural :
+  forall am a b, wf_root a -> wf_root b ->
+    diff_maps node_eqb am a b = Some (list_diff (flatten a) (flatten b)).
+Proof. exact (diff_maps_spec node_eqb node_eqb_sound). Qed.
+Print Assumptions C13_diff_maps_spec_structural.
+
+Theorem C13_list_diff_sorted :
+  forall a b, ksorted (keys a) -> ksorted (keys b) -> ksorted (map change_key (list_diff a b)).
+Proof. exact list_diff_sorted. Qed.
+Print Assumptions C13_list_diff_sorted.
+
+Theorem C13_list_diff_refl : forall a, list_diff a a = [].
+Proof. exact list_diff_refl. Qed.
+Print Assumptions C13_list_diff_refl.
+
+Theorem C13_key_range_diff_unbounded_partial :
+  forall addr_eqb : node -> node -> bool,
+    (forall x y, addr_eqb x y = true -> x = y) ->
+    forall a b, wf_root a -> wf_root b ->
+      key_range_diff addr_eqb None None a b = Some (range_list_diff None None (flatten a) (flatten b)).
+Proof. exact key_range_diff_unbounded_partial. Qed.
+Print Assumptions C13_key_range_diff_unbounded_partial.
+
+Theorem C13_advance_cinv :
+  forall T i c, cinv T i c -> cur_valid c = true ->
+    cinv T i (advance c) /\ length (advance c) = length c
+    /\ exists x, cur_item c = Some x /\ item_ok i x /\ cur_sem c = flat_item x ++ cur_sem (advance c).
+Proof. exact advance_cinv. Qed.
+Print Assumptions C13_advance_cinv.
 
 Theorem C13_skip_sound :
   forall addr_eqb : node -> node -> bool,
@@ -20,15 +58,3 @@ Theorem C13_skip_sound :
     forall x y, equal_items addr_eqb x y = true -> flat_item x = flat_item y.
 Proof. exact skip_sound. Qed.
 Print Assumptions C13_skip_sound.
-
-Theorem C13_node_eqb_sound : forall x y, node_eqb x y = true -> x = y.
-Proof. exact node_eqb_sound. Qed.
-Print Assumptions C13_node_eqb_sound.
-
-Theorem C13_list_diff_refl : forall a, list_diff a a = [].
-Proof. exact list_diff_refl. Qed.
-Print Assumptions C13_list_diff_refl.
-
-Theorem C13_list_diff_common_prefix : forall p a b, list_diff (p ++ a) (p ++ b) = list_diff a b.
-Proof. exact list_diff_common_prefix. Qed.
-Print Assumptions C13_list_diff_common_prefix.
